@@ -3,6 +3,7 @@ import Holpy.C02.ProofsId
 import Holpy.C02.ProofsTree
 import Holpy.C02.ProofsCheck
 import Holpy.C02.ProofsTrace
+import Holpy.C02.ProofsCover
 /-
 C02 — helper lemmas that tie the invariants (ProofsCheck, ProofsTrace) to `checkProof` and
 `checkedExtend`.
